@@ -50,6 +50,14 @@ CHECKS.update({
             "Per copy: handler executions, byte-identical repetition of the first ACK (or silence), independence of endpoints, re-processing after expiry.",
             TB + "EXCHANGE_LIFETIME (247 s) is computed from RFC defaults in the model, not read from the library.",
             "DESIGN.md 6/C04"),
+    "C05": ("model_checking", E1 + "; " + E2,
+            "The real BlockwiseRequest client runs every transfer of a grid (4 methods x boundary body lengths x server SZX 0-6 x client "
+            "maximum SZX 0-6 x mid-transfer reductions) to completion against an independent strict RFC 7959 server that checks every "
+            "wire rule and reassembles the body; both bodies must be byte-identical (position-coded contents). Seven server misbehaviours "
+            "at every block position must end in an error (or an unsuccessful response), never in a different body. Short transfers are "
+            "additionally explored under all <= K drops/duplications of individual datagrams.",
+            TB + "mcv/refpeer.RefBlockServer is the RFC 7959 oracle. Bodies <= 4096 bytes.",
+            "DESIGN.md 6/C05"),
     "C09": ("model_checking", E1 + "; differential isolation runs",
             "On the real UDP server stack every handler outcome (returns with/without code and payload, every "
             "ConstructionRenderableError subclass with/without text, foreign exceptions incl. ones that merely quack like renderable "
